@@ -1323,3 +1323,178 @@ add("mR6f", ["C07"], (W, "        self.jobs_window = jobs_window\n        self.q
     rules=["R07.2"], note="seed C07-R6A")
 add("bR6f", ["C07", "C12"], (W, "        if jobs_window is None:\n            jobs_window = 0\n", "        if jobs_window is None or jobs_window <= 0:\n            jobs_window = 0\n"),
     expect='silent')
+
+# ------------------------------------------------------------------ round 7
+_SAN_OLD = """        changes = False
+        for job in self.jobs:
+            before = len(job.required)
+            job.required &= self.jobs
+            job._s_successors &= self.jobs
+            after = len(job.required)
+            if before != after:
+                changes = True
+                if verbose:
+                    print(10 * '*',
+                          "WARNING: job {} in {} had {} requirements removed"
+                          .format(job, container_label, before - after))
+            # recursively scan nested schedulers
+            # sanitize() returns True when nothing had to be changed
+            if isinstance(job, PureScheduler):
+                changes = (not job.sanitize(verbose)) or changes
+        return not changes
+"""
+_SAN_NEW = """        total = sum(len(job.required) for job in self.iterate_jobs(%s))
+        for job in self.jobs:
+            job.required &= self.jobs
+            job._s_successors &= self.jobs
+            if isinstance(job, PureScheduler):
+                job.sanitize(verbose)
+        return total == sum(len(job.required) for job in self.iterate_jobs(%s))
+"""
+add("mR7a", ["C16"], (P, _SAN_OLD, _SAN_NEW % ("", "")), rules=["R16.4"],
+    note="seed C16-R7B: the verdict compares a count that leaves nested scheduler objects out")
+add("bR7a", ["C16"], (P, _SAN_OLD, _SAN_NEW % ("scan_schedulers=True", "scan_schedulers=True")), expect='silent',
+    note="the same verdict over a walk that reaches every object sanitize() may prune")
+add("mR7b", ["C13", "C11"], (P, "        if pending:\n            for task in pending:\n                task.cancel()\n",
+                             "        if pending:\n            await self._feedback(pending, \"TIDYING\")\n            for task in pending:\n                task.cancel()\n"),
+    rules=["R13.12", "R11.7"], note="seed C13-R7C: the tidy helper reads task._job, which handler tasks do not have")
+add("mR7c", ["C12", "C03"], [(P, "            added = 0\n            for candidate_next in possible_next_jobs:\n",
+                              "            added = 0\n            requirements_ok = True\n            for candidate_next in possible_next_jobs:\n"),
+                             (P, "                # we can start only if all requirements are satisfied\n                requirements_ok = True\n", "")],
+    rules=["R12.4", "R03.2g"], note="seed C12-R7A: the guard flag is carried from one candidate to the next")
+add("mR7d", ["C14", "C12"], (W, "                if release:\n                    await self.queue.get()\n",
+                             "                if release:\n                    await asyncio.shield(self.queue.get())\n"),
+    rules=["R14.6", "R12.5"], note="seed C14-R7B: the wrapper suspends after the body has finished")
+add("mR7e", ["C06", "C04"], (P, "        return self._failed_timeout is not False\n",
+                             "        if self._failed_timeout is not False:\n            return True\n        return any(isinstance(job.raised_exception(), TimeoutError) for job in self.jobs)\n"),
+    rules=["R06.12", "R04.12"], note="seed C06-R7C: the diagnosis looks at what jobs raised")
+add("mR7f", ["C03", "C05"], [(W, "        async def wrapped():                            # pylint: disable=C0111\n",
+                              "        critical = job.is_critical()\n\n        async def wrapped():                            # pylint: disable=C0111\n"),
+                             (W, "                release = not job.is_critical()\n", "                release = not critical\n")],
+    rules=["R03.8", "R05.13"], note="seed C03-R7C: criticality sampled when the task is created")
+add("mR7g", ["C19"], (J, "        if job is not self:\n            self.required.add(job)\n", "        if job is not self:\n            self.required.add(job)\n") , expect='silent',
+    note="(identity: anchor check of the requires() helper)")
+add("mR7h", ["C10"], (S, "                if exc is not None:\n                    raise exc\n",
+                      "                if exc is not None:\n                    if hasattr(exc, 'add_note'):\n                        exc.add_note(job._get_text_label())\n                    raise exc\n"),
+    rules=["R10.16"], note="seed C10-R7C: a call between reading the exception and raising it")
+add("mR7i", ["C15"], (P, "        for job in self.topological_order():\n            i = job._set_sched_id(i, id_format)",
+                      "        for job in sorted(self.topological_order(), key=lambda job: bool(job.forever)):\n            i = job._set_sched_id(i, id_format)"),
+    rules=["R15.5"], note="seed C15-R7B: ids handed out over a re-sorted order")
+add("mR7j", ["C20"], [(J, "    def dot_style(self):                                # pylint: disable=c0111\n",
+                       "    def dot_style(self, style=DotStyle()):              # pylint: disable=c0111\n"),
+                      (J, "        style = DotStyle()\n        # style; DotStyle known how to deal with lists\n",
+                       "        # style; DotStyle known how to deal with lists\n")],
+    rules=["R20.10"], note="seed C20-R7C: the style object is built once for all calls")
+add("mR7k", ["C11", "C13"], (J, "            result = await self.coshutdown\n", "            result = await asyncio.shield(self.coshutdown)\n"),
+    rules=["R11.6", "R13.9"], note="seed C11-R7C: the user's clean-up runs in a task nobody cancels")
+add("mR7l", ["C04"], [(P, """            done, pending \\
+                = await asyncio.wait(pending,
+                                     timeout=self._remaining_timeout(),
+                                     return_when=asyncio.FIRST_COMPLETED)
+""", """            try:
+                done, pending = await asyncio.wait_for(
+                    asyncio.wait(pending, return_when=asyncio.FIRST_COMPLETED),
+                    timeout=self._remaining_timeout())
+            except asyncio.TimeoutError:
+                done = set()
+""")], rules=["R04.11"], note="seed C04-R7B: the main wait runs under an outer bound")
+add("mR7m", ["C12"], [(P, "        while True:\n            done, pending \\\n", "        while nb_jobs_done < nb_jobs_finite:\n            done, pending \\\n")],
+    rules=["R12.1"], note="seed C12-R7C (reduced): the loop can be skipped before the first wait")
+add("mR7n", ["C05", "C01"], (P, "        task = asyncio.create_task(window.run_job(job)())\n",
+                             "        if isinstance(job, PureScheduler):\n            job._running = True\n            task = asyncio.create_task(job.co_run())\n        else:\n            task = asyncio.create_task(window.run_job(job)())\n"),
+    rules=["R05.12", "R01.1"], note="seed C05-R7C: nested schedulers bypass the window wrapper and its gate")
+add("mR7o", ["C18", "C01"], (P, """        preserved = downwards & upwards
+        if keep_starts:
+            preserved.update(starts)
+        if keep_ends:
+            preserved.update(ends)
+
+        # no need to replug anything, let's do it the rough way,
+        # and sanitize to remove dangling references
+        self.jobs = preserved
+        self.sanitize()
+""", """        self.keep_only(downwards & upwards)
+        if keep_starts:
+            self.jobs.update(starts)
+        if keep_ends:
+            self.jobs.update(ends)
+        self.sanitize()
+"""), rules=["R18.1", "R01.12"], note="seed C01-R7C: sanitize() runs while the milestones are out")
+add("mR7p", ["C19"], [(J, "                if not remove:\n                    self._add_one_requirement(requirement)\n                else:\n                    self.required.remove(requirement)\n",
+                       "                if requirement is not self:\n                    if remove:\n                        self.required.remove(requirement)\n                    else:\n                        self.required.add(requirement)\n")],
+    rules=["R19.3"], note="seed C19-R7B: removing oneself is silently skipped")
+add("mR7q", ["C03", "C07"], (P, "        task = asyncio.create_task(window.run_job(job)())\n",
+                             "        if isinstance(job, PureScheduler) and job.jobs_window is None:\n            job.jobs_window = self.jobs_window\n        task = asyncio.create_task(window.run_job(job)())\n"),
+    rules=["R03.9", "R07.5"], note="seed C03-R7B: a nested scheduler is handed its parent's window size")
+add("bR7b", ["C13", "C11"], (P, "        if pending:\n            for task in pending:\n                task.cancel()\n",
+                             "        if pending:\n            await self._feedback(None, \"tidying {} tasks\".format(len(pending)))\n            for task in pending:\n                task.cancel()\n"),
+    expect='silent', note="feedback that names no task reads no back-pointer")
+add("bR7h", ["C10"], (S, "                if exc is not None:\n                    raise exc\n",
+                      "                if exc is not None:\n                    if self.verbose:\n                        print(\"critical failure bubbles up\")\n                    raise exc\n"),
+    expect='silent', note="a print between reading the exception and raising it cannot replace it")
+add("bR7i", ["C15"], (P, "        for job in self.topological_order():\n            i = job._set_sched_id(i, id_format)",
+                      "        for job in list(self.topological_order()):\n            i = job._set_sched_id(i, id_format)"),
+    expect='silent', note="a list keeps the order of the generator")
+add("bR7j", ["C20"], [(J, "    def dot_style(self):                                # pylint: disable=c0111\n",
+                       "    def dot_style(self, style=None):                    # pylint: disable=c0111\n"),
+                      (J, "        style = DotStyle()\n        # style; DotStyle known how to deal with lists\n",
+                       "        style = DotStyle() if style is None else style\n        # style; DotStyle known how to deal with lists\n")],
+    expect='silent', note="presets with a None default: a fresh style per call")
+add("bR7l", ["C04", "C08"], [(P, """            done, pending \\
+                = await asyncio.wait(pending,
+                                     timeout=self._remaining_timeout(),
+                                     return_when=asyncio.FIRST_COMPLETED)
+""", """            remaining = self._remaining_timeout()
+            done, pending = await asyncio.wait(
+                pending, timeout=remaining, return_when=asyncio.FIRST_COMPLETED)
+""")], expect='silent', note="the wait awaited as it is, its bound computed first")
+add("bR7p", ["C19"], [(J, "                if not remove:\n                    self._add_one_requirement(requirement)\n                else:\n                    self.required.remove(requirement)\n",
+                       "                if remove:\n                    self.required.remove(requirement)\n                elif requirement is not self:\n                    self.required.add(requirement)\n")],
+    expect='silent', note="the identity test filters additions only")
+_SUCC_LOOP = """                if candidate_next.is_scheduled():
+                    continue
+                # we can start only if all requirements are satisfied
+                requirements_ok = True
+                for req in candidate_next.required:
+                    if not req.is_done():
+                        requirements_ok = False
+                if requirements_ok:
+                    await self._feedback(candidate_next, "STARTING")
+                    pending.add(self._create_task(candidate_next, window))
+                    added += 1
+"""
+add("bR7c1", ["C12", "C03", "C01"], (P, _SUCC_LOOP, """                if not candidate_next.is_scheduled():
+                    requirements_ok = True
+                    for req in candidate_next.required:
+                        if not req.is_done():
+                            requirements_ok = False
+                    if requirements_ok:
+                        await self._feedback(candidate_next, "STARTING")
+                        pending.add(self._create_task(candidate_next, window))
+                        added += 1
+"""), expect='silent', note="the guard flag re-initialised inside a nested if instead of after a continue")
+add("bR7c2", ["C12", "C03", "C01"], (P, _SUCC_LOOP, """                if candidate_next.is_scheduled():
+                    continue
+                if not candidate_next.required:
+                    requirements_ok = True
+                else:
+                    requirements_ok = all(req.is_done() for req in candidate_next.required)
+                if requirements_ok:
+                    await self._feedback(candidate_next, "STARTING")
+                    pending.add(self._create_task(candidate_next, window))
+                    added += 1
+"""), expect='silent', note="the guard flag assigned on both branches of an if")
+
+# ------------------------------------------------------------------ round 8
+add("mR8a", ["C13", "C08"], (P, "        self._expiration = \\\n            None if timeout is None \\\n            else time.time() + timeout\n",
+                             "        if timeout is not None:\n            self._expiration = time.time() + timeout\n"),
+    rules=["R13.13", "R08.8"], note="seed C13-R8C: the deadline of the run survives into an unbounded shutdown phase")
+add("bR8a", ["C13", "C08", "C03"], (P, "        self._expiration = \\\n            None if timeout is None \\\n            else time.time() + timeout\n",
+                                    "        if timeout is None:\n            self._expiration = None\n            return\n        now = time.time()\n        self._expiration = now + timeout\n"),
+    expect='silent', note="guard clause + a local reading of the clock: stored on every path")
+add("mR8b", ["C19"], (J, "            elif isinstance(requirement, (tuple, list, set)):\n",
+                      "            elif isinstance(requirement, set) and not remove:\n                self.required |= requirement - {self}\n            elif isinstance(requirement, (tuple, list, set)):\n"),
+    rules=["R19.3"], note="seed C19-R8B: a set merged into self.required as it is")
+add("mR8c", ["C18"], (P, "        downwards = self.successors_downstream(*starts) if starts else self.jobs\n",
+                      "        starts = starts or set(self.entry_jobs())\n        downwards = self.successors_downstream(*starts)\n"),
+    rules=["R18.3"], note="seed C18-R8B: an omitted `starts` replaced by the entry jobs")
